@@ -167,7 +167,14 @@ func (generator *ConverterGenerator) FromBuilder(context Context, builder ast.Bu
 
 	converter.ConstructorArgs = generator.constructorArgs(context, converter, builder)
 
-	converter.Mappings = tools.Map(builder.Options, func(option ast.Option) ConversionMapping {
+	// an option that writes several paths from one argument is called before the
+	// options that write one of these paths: they correct what it wrote there.
+	options := append([]ast.Option(nil), builder.Options...)
+	sort.SliceStable(options, func(i, j int) bool {
+		return spreadsAnArgument(options[i]) && !spreadsAnArgument(options[j])
+	})
+
+	converter.Mappings = tools.Map(options, func(option ast.Option) ConversionMapping {
 		return generator.convertOption(context, converter, option)
 	})
 
@@ -187,6 +194,23 @@ func (generator *ConverterGenerator) FromBuilder(context Context, builder ast.Bu
 	})
 
 	return converter
+}
+
+// spreadsAnArgument tells whether one argument of the option feeds several assignments.
+func spreadsAnArgument(option ast.Option) bool {
+	fed := make(map[string]struct{})
+	for _, assignment := range option.Assignments {
+		if assignment.Value.Argument == nil {
+			continue
+		}
+
+		if _, found := fed[assignment.Value.Argument.Name]; found {
+			return true
+		}
+		fed[assignment.Value.Argument.Name] = struct{}{}
+	}
+
+	return false
 }
 
 func (generator *ConverterGenerator) constructorArgs(context Context, converter Converter, builder ast.Builder) []ArgumentMapping {
